@@ -1,6 +1,7 @@
 package main
 
 import (
+	"sync"
 	"flag"
 	"fmt"
 	"os"
@@ -92,6 +93,13 @@ func cmdVerify(args []string) {
 	}
 	jobs := make(chan struct{}, 16)
 	total, ok := 0, 0
+	only := func(o *Obligation) bool { return len(kindSet) == 0 || kindSet[o.Kind] }
+	type item struct {
+		fc     *FnCtx
+		header string
+		err    error
+	}
+	var items []*item
 	for _, key := range keys {
 		fc, err := w.NewFnCtx(key)
 		if err != nil {
@@ -102,9 +110,29 @@ func cmdVerify(args []string) {
 			fmt.Printf("%-50s GEN-ERROR %v\n", key, err)
 			continue
 		}
-		only := func(o *Obligation) bool { return len(kindSet) == 0 || kindSet[o.Kind] }
-		if err := w.Discharge(fc, dir, *timeout, only, jobs); err != nil {
-			fmt.Printf("%-50s SOLVER-ERROR %v\n", key, err)
+		items = append(items, &item{fc: fc})
+	}
+	// headers are rendered after all generation so that every literal / heap key is declared
+	for _, it := range items {
+		it.header, it.err = w.scriptHeader(it.fc)
+	}
+	var wg sync.WaitGroup
+	for _, it := range items {
+		if it.err != nil {
+			continue
+		}
+		it := it
+		wg.Add(1)
+		go func() {
+			defer wg.Done()
+			it.err = w.Discharge(it.fc, it.header, dir, *timeout, only, jobs)
+		}()
+	}
+	wg.Wait()
+	for _, it := range items {
+		fc := it.fc
+		if it.err != nil {
+			fmt.Printf("%-50s SOLVER-ERROR %v\n", fc.key, it.err)
 			continue
 		}
 		n, d := 0, 0
@@ -119,7 +147,7 @@ func cmdVerify(args []string) {
 		}
 		total += n
 		ok += d
-		fmt.Printf("%-50s %d/%d\n", key, d, n)
+		fmt.Printf("%-50s %d/%d\n", fc.key, d, n)
 		for _, o := range fc.obls {
 			if !only(o) {
 				continue
